@@ -2,6 +2,7 @@ import NbioVerif.Model.Rfc6455
 import NbioVerif.Model.WsMask
 import NbioVerif.Model.WsTrunc
 import NbioVerif.Model.WsUp
+import NbioVerif.Model.WsBatch
 import NbioVerif.Model.WsHandshake
 import NbioVerif.DrvCommon
 /-! wsdrv: runs the websocket model on the annotated ops of `hws exec` (see harness/cmd/hws/main.go) -/
@@ -292,19 +293,21 @@ partial def loop (h : IO.FS.Stream) (d : DS) : IO Unit := do
     let base := mkEnv ws "keys" ss.k.nwrites
     -- the i-th compressed message gets the i-th observed deflate output
     let qsize := if d.sendq > 0 && d.sendqFrom == side then d.sendq else 0
-    let (k1, wire, werr, _, _, werrs) := msgs.foldl (fun (acc : K × List UInt8 × Nat × Nat × Nat × List String) (m : Nat × List UInt8) =>
-      let (k, wire, werr, ci, qlen, werrs) := acc
-      let isC := gs.writeCompression && (m.1 == 1 || m.1 == 2)
-      let env : Env := { base with deflate := fun _ => defls.getD ci [] }
+    let (k1, wire, werr, werrs) : K × List UInt8 × Nat × List String :=
       if qsize > 0 then
-        let r := appWriteQ gs env k qsize qlen m.1 m.2
-        let ec := match r.err with | some er => er.code | none => 0
-        (r.k, wire ++ r.wrote.foldr (· ++ ·) [], if werr == 0 then ec else werr, if isC then ci + 1 else ci, r.qlen, werrs ++ [toString ec])
+        -- bounded send queue: the batch function of Model/WsBatch.lean (c12_sendq_batch_driver is about it)
+        let r := batchQ gs base defls qsize ss.k 0 0 msgs
+        (r.k, r.wire, (r.codes.find? (· != 0)).getD 0, r.codes.map toString)
       else
-      let (k', w) := appWrite gs env k m.1 m.2
-      match w with
-      | .ok wr => (k', wire ++ wr.foldr (· ++ ·) [], werr, if isC then ci + 1 else ci, qlen, werrs ++ ["0"])
-      | .error er => (k', wire, if werr == 0 then er.code else werr, if isC then ci + 1 else ci, qlen, werrs ++ [toString er.code])) (ss.k, [], 0, 0, 0, [])
+      let (k1, wire, werr, _, werrs) := msgs.foldl (fun (acc : K × List UInt8 × Nat × Nat × List String) (m : Nat × List UInt8) =>
+        let (k, wire, werr, ci, werrs) := acc
+        let isC := gs.writeCompression && (m.1 == 1 || m.1 == 2)
+        let env : Env := { base with deflate := fun _ => defls.getD ci [] }
+        let (k', w) := appWrite gs env k m.1 m.2
+        match w with
+        | .ok wr => (k', wire ++ wr.foldr (· ++ ·) [], werr, if isC then ci + 1 else ci, werrs ++ ["0"])
+        | .error er => (k', wire, if werr == 0 then er.code else werr, if isC then ci + 1 else ci, werrs ++ [toString er.code])) (ss.k, [], 0, 0, [])
+      (k1, wire, werr, werrs)
     let ss1 : S := { ss with k := k1 }
     let cuts := (splitNE (f "cuts") ",").map String.toNat!
     let fr := feed gr (mkEnv ws "bkeys" sr.k.nwrites) sr (cutUp wire cuts) []
